@@ -195,13 +195,15 @@ def ldeps (c : Cfg) (t : Nat) (kv : Nat × Rhs) : List SrcP :=
   | some d => depsOf kv.2 d.nestedRefs
   | none => []
 
-/-- the invariant behind C08 -/
-structure Inv (c : Cfg) (w : World) : Prop where
+/-- the invariant behind C08.  `st` (ghost): the *stale* source parameters — those whose last
+value-changing assignment raised from inside `_sync_refs`, so that links depending on them may not
+have been written.  Only the tracking clause looks at it. -/
+structure Inv (c : Cfg) (st : List SrcP) (w : World) : Prop where
   /-- every live link that has a value to offer (its evaluation does not raise Skip) and whose resolved
   value is valid for the target: the instance holds that value -/
   tracks : ∀ (t : Nat) (tg : Target) (p : Nat) (r : Rhs) (d : PDecl) (v : Val), w.tgts[t]? = some tg → (p, r) ∈ tg.refs → c.decl t p = some d →
     resolveRhs c w r d.nestedRefs = some v → skipsRhs c w r d.nestedRefs = false → d.valid v = true →
-    tg.vals[p]? = some (some v)
+    (∀ x ∈ ldeps c t (p, r), x ∉ st) → tg.vals[p]? = some (some v)
   /-- every (existing) dependency of every live link carries the target's `_sync_refs` watcher -/
   watched : ∀ (t : Nat) (tg : Target) (p : Nat) (r : Rhs) (s i : Nat), w.tgts[t]? = some tg → (p, r) ∈ tg.refs → (s, i) ∈ ldeps c t (p, r) →
     i < c.nsp → s < w.watch.length → ∃ ws names, w.watch[s]? = some ws ∧ (t, names) ∈ ws ∧ i ∈ names
@@ -216,6 +218,8 @@ structure Inv (c : Cfg) (w : World) : Prop where
   /-- no leftover watcher: a `_sync_refs` watcher of t sits on S.v only on behalf of a live link of t -/
   exact : ∀ (t s : Nat) (ws : List (Nat × List Nat)) (names : List Nat) (i : Nat), w.watch[s]? = some ws →
     (t, names) ∈ ws → i ∈ names → ∃ tg q r, w.tgts[t]? = some tg ∧ (q, r) ∈ tg.refs ∧ (s, i) ∈ ldeps c t (q, r)
+
+variable {st : List SrcP}
 
 theorem allDeps_mem {c : Cfg} {t : Nat} {ds : List PDecl} (hds : c.decls[t]? = some ds) {refs : List (Nat × Rhs)} {d : SrcP} :
     d ∈ allDeps ds refs ↔ ∃ kv ∈ refs, d ∈ ldeps c t kv := by
@@ -267,7 +271,7 @@ theorem tgts_set_get (l : List Target) (t t' : Nat) (x : Target) (tg : Target) (
 /-- changing one target (values, links) and the watcher tables keeps the invariant when the new
 links of that target are tracked and watched and nobody else's watcher is lost -/
 theorem inv_update_target {c : Cfg} {w : World} {t : Nat} {tg tg' : Target} {watch' : List (List (Nat × List Nat))}
-    (hi : Inv c w) (htg : w.tgts[t]? = some tg)
+    (hi : Inv c st w) (htg : w.tgts[t]? = some tg)
     (hA : ∀ (q : Nat) (r : Rhs), (q, r) ∈ tg'.refs →
       ((q, r) ∈ tg.refs ∧ tg'.vals[q]? = tg.vals[q]?) ∨
       (∀ d v, c.decl t q = some d → resolveRhs c w r d.nestedRefs = some v → skipsRhs c w r d.nestedRefs = false →
@@ -284,19 +288,19 @@ theorem inv_update_target {c : Cfg} {w : World} {t : Nat} {tg tg' : Target} {wat
       i ∈ names → ∃ q r, (q, r) ∈ tg'.refs ∧ (s, i) ∈ ldeps c t (q, r))
     (hX' : ∀ (t' s : Nat) (ws : List (Nat × List Nat)) (names : List Nat), t' ≠ t → watch'[s]? = some ws → (t', names) ∈ ws →
       ∃ ws0, w.watch[s]? = some ws0 ∧ (t', names) ∈ ws0) :
-    Inv c { w with watch := watch', tgts := w.tgts.set t tg' } := by
+    Inv c st { w with watch := watch', tgts := w.tgts.set t tg' } := by
   have hget := fun t' x => tgts_set_get w.tgts t t' x tg htg
   constructor
-  · intro t' tg'' q r d' v ht hm hd' hres hsk hv
+  · intro t' tg'' q r d' v ht hm hd' hres hsk hv hst
     simp only [hget] at ht
     have hres' : resolveRhs c w r d'.nestedRefs = some v := by rw [← hres]; exact (resolveRhs_congr rfl r _).symm
     have hsk' : skipsRhs c w r d'.nestedRefs = false := by rw [← hsk]; exact (skipsRhs_congr rfl r _).symm
     split at ht
     · subst_vars; simp at ht; subst ht
       rcases hA q r hm with ⟨hm', hval⟩ | h2
-      · rw [hval]; exact hi.tracks _ _ _ _ _ _ htg hm' hd' hres' hsk' hv
+      · rw [hval]; exact hi.tracks _ _ _ _ _ _ htg hm' hd' hres' hsk' hv hst
       · exact h2 d' v hd' hres' hsk' hv
-    · exact hi.tracks _ _ _ _ _ _ ht hm hd' hres' hsk' hv
+    · exact hi.tracks _ _ _ _ _ _ ht hm hd' hres' hsk' hv hst
   · intro t' tg'' q r s i ht hm hdep hi' hs
     simp only [hget] at ht
     split at ht
@@ -336,7 +340,7 @@ theorem inv_update_target {c : Cfg} {w : World} {t : Nat} {tg tg' : Target} {wat
 table, the invariant holds when the new links are tracked -/
 theorem rewatch_inv {c : Cfg} {t : Nat} {w : World} {tg : Target} {ds : List PDecl} {vals' : List (Option Val)}
     {refs' : List (Nat × Rhs)}
-    (hi : Inv c w) (htg : w.tgts[t]? = some tg) (hds : c.decls[t]? = some ds)
+    (hi : Inv c st w) (htg : w.tgts[t]? = some tg) (hds : c.decls[t]? = some ds)
     (hA : ∀ (q : Nat) (r : Rhs), (q, r) ∈ refs' →
       ((q, r) ∈ tg.refs ∧ vals'[q]? = tg.vals[q]?) ∨
       (∀ d v, c.decl t q = some d → resolveRhs c w r d.nestedRefs = some v → skipsRhs c w r d.nestedRefs = false →
@@ -344,8 +348,8 @@ theorem rewatch_inv {c : Cfg} {t : Nat} {w : World} {tg : Target} {ds : List PDe
     (hC : keysNodup refs')
     (hE : ∀ (q : Nat) (r : Rhs) (d : PDecl), (q, r) ∈ refs' → c.decl t q = some d → d.allowRefs = true)
     (hD : ∀ (q : Nat) (v : Val), tg.vals[q]? = some (some v) → ∃ v', vals'[q]? = some (some v')) :
-    Inv c { w with watch := setupRefs c t (allDeps ds refs') (unwatchAll t w.watch),
-                   tgts := w.tgts.set t { tg with vals := vals', refs := refs' } } := by
+    Inv c st ({ w with watch := setupRefs c t (allDeps ds refs') (unwatchAll t w.watch),
+                       tgts := w.tgts.set t { tg with vals := vals', refs := refs' } } : World) := by
   refine inv_update_target (tg' := { tg with vals := vals', refs := refs' }) hi htg hA ?_ ?_
     (by rw [setupRefs_length, unwatchAll_length]) hC hE hD ?_ ?_
   · intro q r' s i hm hdep hi' hs
@@ -405,7 +409,7 @@ theorem rewatch_inv {c : Cfg} {t : Nat} {w : World} {tg : Target} {ds : List PDe
 /-- a store at (t, p) followed by the deferred link change keeps the invariant -/
 theorem relink_inv {c : Cfg} {t p : Nat} {d : PDecl} {rl : Relink} {w : World} {tg : Target}
     {vals' : List (Option Val)}
-    (hi : Inv c w) (htg : w.tgts[t]? = some tg) (hd : c.decl t p = some d)
+    (hi : Inv c st w) (htg : w.tgts[t]? = some tg) (hd : c.decl t p = some d)
     (hD : ∀ (q : Nat) (v : Val), tg.vals[q]? = some (some v) → ∃ v', vals'[q]? = some (some v'))
     (hq : ∀ q, q ≠ p → vals'[q]? = tg.vals[q]?)
     (hrl : match rl with
@@ -413,7 +417,7 @@ theorem relink_inv {c : Cfg} {t p : Nat} {d : PDecl} {rl : Relink} {w : World} {
       | .drop => True
       | .link r => (∀ v, resolveRhs c w r d.nestedRefs = some v → skipsRhs c w r d.nestedRefs = false →
           vals'[p]? = some (some v)) ∧ d.allowRefs = true) :
-    Inv c (applyRelink c t p rl { w with tgts := w.tgts.set t { tg with vals := vals' } }) := by
+    Inv c st (applyRelink c t p rl { w with tgts := w.tgts.set t { tg with vals := vals' } }) := by
   have hget := fun t' x => tgts_set_get w.tgts t t' x tg htg
   obtain ⟨ds, hds⟩ : ∃ ds, c.decls[t]? = some ds := by
     unfold Cfg.decl at hd
@@ -475,9 +479,9 @@ def relinkCond (c : Cfg) (w : World) (d : PDecl) (tg : Target) (p : Nat) (v : Op
 plain or the resolved value of the reference that becomes the link) -/
 theorem setCore_inv {c : Cfg} {t p : Nat} {d : PDecl} {old : Val} {v : Option Val} {rl : Relink}
     {w w' : World} {tg : Target} {res : Res} {evs : List (Nat × Val)}
-    (hi : Inv c w) (htg : w.tgts[t]? = some tg) (hd : c.decl t p = some d) (hold : tg.read p = some old)
+    (hi : Inv c st w) (htg : w.tgts[t]? = some tg) (hd : c.decl t p = some d) (hold : tg.read p = some old)
     (hrl : relinkCond c w d tg p v rl)
-    (h : setCore c t p d old v rl false w = (res, w', evs)) : Inv c w' := by
+    (h : setCore c t p d old v rl false w = (res, w', evs)) : Inv c st w' := by
   cases res with
   | raised e => rw [(setCore_raised h).1]; exact hi
   | ok =>
@@ -558,7 +562,7 @@ theorem resolveForSet_cond {c : Cfg} {d : PDecl} {rhs : Rhs} {w : World} {tg : T
         · simp at hres
 
 theorem setInst_inv {c : Cfg} {t p : Nat} {rhs : Rhs} {w w' : World} {res : Res} {evs : List (Nat × Val)}
-    (hi : Inv c w) (h : setInst c t p rhs w = (res, w', evs)) : Inv c w' := by
+    (hi : Inv c st w) (h : setInst c t p rhs w = (res, w', evs)) : Inv c st w' := by
   unfold setInst at h
   split at h
   · rename_i tg d htg hd
@@ -583,7 +587,7 @@ theorem setInst_inv {c : Cfg} {t p : Nat} {rhs : Rhs} {w w' : World} {res : Res}
   · simp at h; rw [← h.2.1]; exact hi
 
 theorem updateKeys_inv {c : Cfg} {t : Nat} : ∀ {kvs : List (Nat × Rhs)} {w w' : World} {res : Res} {evs : List (Nat × Val)},
-    Inv c w → updateKeys c t kvs w = (res, w', evs) → Inv c w' := by
+    Inv c st w → updateKeys c t kvs w = (res, w', evs) → Inv c st w' := by
   intro kvs
   induction kvs with
   | nil => intro w w' res evs hi h; simp [updateKeys] at h; rw [← h.2.1]; exact hi
@@ -609,7 +613,7 @@ theorem updateKeys_inv {c : Cfg} {t : Nat} : ∀ {kvs : List (Nat × Rhs)} {w w'
         | raised e => simp at h; rw [← h.2.1]; exact hi1
 
 theorem update_inv {c : Cfg} {t : Nat} {kvs : List (Nat × Rhs)} {w w' : World} {res : Res} {log : List Entry}
-    (hi : Inv c w) (h : update c t kvs w = (res, w', log)) : Inv c w' := by
+    (hi : Inv c st w) (h : update c t kvs w = (res, w', log)) : Inv c st w' := by
   unfold update at h
   cases hu : updateKeys c t (dedupKeys kvs) w with
   | mk r q =>
@@ -618,12 +622,12 @@ theorem update_inv {c : Cfg} {t : Nat} {kvs : List (Nat × Rhs)} {w w' : World} 
     rw [← h.2.1]; exact updateKeys_inv hi hu
 
 /-- the invariant does not look at the open `update` contexts -/
-theorem inv_stack {c : Cfg} {w : World} (st : List Restorer) (hi : Inv c w) : Inv c { w with stack := st } :=
+theorem inv_stack {c : Cfg} {w : World} (stk : List Restorer) (hi : Inv c st w) : Inv c st { w with stack := stk } :=
   ⟨fun t tg p r d v ht hm hd hres hv => hi.tracks t tg p r d v ht hm hd (by rw [← hres]; exact (resolveRhs_congr rfl r _).symm) hv,
    hi.watched, hi.nodup, hi.allow, hi.consts, hi.exact⟩
 
 theorem setCls_inv {c : Cfg} {t p : Nat} {rhs : Rhs} {w w' : World} {res : Res} {log : List Entry}
-    (hi : Inv c w) (h : setCls c t p rhs w = (res, w', log)) : Inv c w' := by
+    (hi : Inv c st w) (h : setCls c t p rhs w = (res, w', log)) : Inv c st w' := by
   cases res with
   | raised e => rw [(setCls_raised h).1]; exact hi
   | ok =>
@@ -655,7 +659,7 @@ theorem setCls_inv {c : Cfg} {t p : Nat} {rhs : Rhs} {w w' : World} {res : Res} 
     · simp at h
 
 theorem ctxEnter_inv {c : Cfg} {t : Nat} {kvs : List (Nat × Rhs)} {w w' : World} {res : Res} {log : List Entry}
-    (hi : Inv c w) (h : ctxEnter c t kvs w = (res, w', log)) : Inv c w' := by
+    (hi : Inv c st w) (h : ctxEnter c t kvs w = (res, w', log)) : Inv c st w' := by
   unfold ctxEnter at h
   cases hu : update c t kvs w with
   | mk r q =>
@@ -671,7 +675,7 @@ theorem ctxEnter_inv {c : Cfg} {t : Nat} {kvs : List (Nat × Rhs)} {w w' : World
     | raised e => simp at h; rw [← h.2.1]; exact hi1
 
 theorem ctxExit_inv {c : Cfg} {w w' : World} {res : Res} {log : List Entry}
-    (hi : Inv c w) (h : ctxExit c w = (res, w', log)) : Inv c w' := by
+    (hi : Inv c st w) (h : ctxExit c w = (res, w', log)) : Inv c st w' := by
   unfold ctxExit at h
   split at h
   · simp at h; rw [← h.2.1]; exact hi
@@ -1120,10 +1124,17 @@ theorem ldeps_eq {c : Cfg} {t p : Nat} {r : Rhs} {d : PDecl} (hd : c.decl t p = 
     ldeps c t (p, r) = depsOf r d.nestedRefs := by
   simp [ldeps, hd]
 
-/-- a source update that does not raise keeps the invariant: every dependent link is re-resolved
-and written (it is watched), every other link resolves to what it resolved to before -/
-theorem srcSet_inv {c : Cfg} {s i : Nat} {v : Int} {w w' : World} {log : List Entry}
-    (hi : Inv c w) (h : srcSet c s i v w = (.ok, w', log)) : Inv c w' := by
+/-- a source update and the stale set.  Whatever the outcome, links that do not depend on the updated
+source parameter resolve to what they resolved to before and keep their value; when the update does
+not raise and changes the value, every dependent link is re-resolved and written (it is watched), so
+the parameter stops being stale; when it raises it becomes stale; structure (watchers, links) never
+moves.  `st'` is any stale set that keeps the other stale entries, contains (s, i) after a raise, and
+keeps everything when the value did not change (then nothing was synced). -/
+theorem srcSet_inv {c : Cfg} {s i : Nat} {v : Int} {w w' : World} {res : Res} {log : List Entry} {st' : List SrcP}
+    (hi : Inv c st w) (h : srcSet c s i v w = (res, w', log))
+    (h1 : ∀ d ∈ st, d ≠ (s, i) → d ∈ st')
+    (h2 : res ≠ .ok → (s, i) ∈ st')
+    (h3 : readSrc w (s, i) = some v → ∀ d ∈ st, d ∈ st') : Inv c st' w' := by
   have hfr := srcSet_frame hi.nodup h
   obtain ⟨hwatch, _, hlen, hread, htgs⟩ := hfr
   -- the target a post-state target comes from
@@ -1142,12 +1153,15 @@ theorem srcSet_inv {c : Cfg} {s i : Nat} {v : Int} {w w' : World} {log : List En
     exact ⟨w.tgts[t], vals', by simp [hlt], rfl, h2, h3⟩
   refine ⟨?_, ?_, ?_, ?_, ?_, ?_⟩
   · -- tracks
-    intro t tg' p r dcl v0 ht hm hd hres hsk hvalid
+    intro t tg' p r dcl v0 ht hm hd hres hsk hvalid hst
     obtain ⟨tg, vals', htg, e, hnondep, _⟩ := back t tg' ht
     subst e
     simp only at hm ⊢
     by_cases hdep : (s, i) ∈ ldeps c t (p, r)
     · -- the link depends on the changed source: it was re-resolved and written
+      cases res with
+      | raised e => exact absurd (h2 (by simp)) (hst _ hdep)
+      | ok =>
       unfold srcSet at h
       split at h
       · simp at h
@@ -1174,6 +1188,7 @@ theorem srcSet_inv {c : Cfg} {s i : Nat} {v : Int} {w w' : World} {log : List En
             rw [← hv]
             exact hi.tracks _ _ _ _ _ _ htg hm hd (by rw [← hres]; exact (resolveRhs_congr hsrc' r _).symm)
               (by rw [← hsk]; exact (skipsRhs_congr hsrc' r _).symm) hvalid
+              (fun x hx hxs => hst x hx (h3 hold x hxs))
           · cases hs : syncAll c (s, i) (List.map (fun x => x.fst) (List.filter (fun x => x.snd.contains i) (w.watch[s]?.getD [])))
                 { w with src := w.src.set s (row.set i v) } with
             | mk r1 q1 =>
@@ -1211,6 +1226,7 @@ theorem srcSet_inv {c : Cfg} {s i : Nat} {v : Int} {w w' : World} {log : List En
         rw [ldeps_eq hd] at hdep
         exact hdep hdm
       refine hi.tracks _ _ _ _ _ _ htg hm hd ?_ ?_ hvalid
+        (fun x hx hxs => hst x hx (h1 x hxs (fun e => hdep (e ▸ hx))))
       · rw [← hres]; exact (resolveRhs_frame r _ hagree).symm
       · rw [← hsk]; exact (skipsRhs_frame r _ hagree).symm
   · intro t tg' p r s' i' ht hm hdep hi' hs'
@@ -1238,14 +1254,25 @@ theorem srcSet_inv {c : Cfg} {s i : Nat} {v : Int} {w w' : World} {log : List En
 /-! ### every operation keeps the invariant -/
 
 
-/-- every operation keeps the invariant, whatever its outcome — except a source update that raises
-from inside `_sync_refs` (a watcher failure; see `linked_value_tracks_reference_full_refuted`) -/
+/-- the stale set after an operation: a source update that raises makes its parameter stale, one that
+succeeds with a new value makes it fresh again, everything else leaves the set alone -/
+def staleAfter (c : Cfg) (op : Op) (w : World) (st : List SrcP) : List SrcP :=
+  match op with
+  | .srcSet s i v =>
+    match (step c op w).1 with
+    | .ok => if readSrc w (s, i) = some v then st else st.filter (· != (s, i))
+    | .raised _ => (s, i) :: st
+  | _ => st
+
+/-- every operation keeps the invariant, whatever its outcome, with the stale set updated as above -/
 theorem step_inv {c : Cfg} {op : Op} {w w' : World} {res : Res} {log : List Entry}
-    (hi : Inv c w) (h : step c op w = (res, w', log))
-    (hsrc : ∀ s i v, op = .srcSet s i v → res = .ok) : Inv c w' := by
+    (hi : Inv c st w) (h : step c op w = (res, w', log)) : Inv c (staleAfter c op w st) w' := by
+  have hres : (step c op w).1 = res := by rw [h]
   unfold step at h
   split at h
-  · simp at h; rw [← h.2.1]; exact hi
+  · simp at h; rw [← h.2.1]
+    cases op <;> first | exact hi | skip
+    rename_i hns; simp [Op.supported] at hns
   · cases op with
     | set t p rhs =>
       simp only at h
@@ -1270,9 +1297,20 @@ theorem step_inv {c : Cfg} {op : Op} {w w' : World} {res : Res} {log : List Entr
     | ctxExit => exact ctxExit_inv hi h
     | srcSet s i v =>
       simp only at h
-      have := hsrc s i v rfl
-      subst this
-      exact srcSet_inv hi h
+      simp only [staleAfter, hres]
+      cases res with
+      | ok =>
+        simp only
+        by_cases hsame : readSrc w (s, i) = some v
+        · rw [if_pos hsame]
+          exact srcSet_inv hi h (fun d hd _ => hd) (fun hne => absurd rfl hne) (fun _ d hd => hd)
+        · rw [if_neg hsame]
+          exact srcSet_inv hi h (fun d hd hne => List.mem_filter.2 ⟨hd, by simpa using hne⟩)
+            (fun hne => absurd rfl hne) (fun e => absurd e hsame)
+      | raised e =>
+        simp only
+        refine srcSet_inv hi h (fun d hd _ => List.mem_cons_of_mem _ hd) (fun _ => List.mem_cons_self ..) ?_
+        intro _ d hd; exact List.mem_cons_of_mem _ hd
 
 
 /-! ### frames -/
@@ -1560,8 +1598,8 @@ theorem ctorKeys_ok {c : Cfg} {ds : List PDecl} {w : World} {vals0 : List (Optio
 /-- constructing the next target — with any keyword arguments: plain values and references of
 every kind — keeps the invariant: links made by the constructor are tracked and watched -/
 theorem construct_inv {c : Cfg} {dflt : List Val} {kws : List (Nat × Rhs)} {w w' : World}
-    (hi : Inv c w) (hlen : ∀ ds, c.decls[w.tgts.length]? = some ds → ds.length ≤ dflt.length)
-    (h : construct c dflt kws w = (.ok, w')) : Inv c w' := by
+    (hi : Inv c st w) (hlen : ∀ ds, c.decls[w.tgts.length]? = some ds → ds.length ≤ dflt.length)
+    (h : construct c dflt kws w = (.ok, w')) : Inv c st w' := by
   unfold construct at h
   simp only at h
   split at h
@@ -1595,13 +1633,13 @@ theorem construct_inv {c : Cfg} {dflt : List Val} {kws : List (Nat × Rhs)} {w w
               rw [this] at ht; cases ht
         have hdecl := fun p => decl_of_decls hds p
         refine ⟨?_, ?_, ?_, ?_, ?_, ?_⟩
-        · intro t' tg' p r d v ht hm hd hres hsk hvalid
+        · intro t' tg' p r d v ht hm hd hres hsk hvalid hst
           have hres' : resolveRhs c w r d.nestedRefs = some v := by
             rw [← hres]; exact (resolveRhs_congr rfl r _).symm
           have hsk' : skipsRhs c w r d.nestedRefs = false := by
             rw [← hsk]; exact (skipsRhs_congr rfl r _).symm
           rcases classify t' tg' ht with ⟨_, ht'⟩ | ⟨e1, e2⟩
-          · exact hi.tracks _ _ _ _ _ _ ht' hm hd hres' hsk' hvalid
+          · exact hi.tracks _ _ _ _ _ _ ht' hm hd hres' hsk' hvalid hst
           · subst e1 e2
             obtain ⟨d', h1, _, h3⟩ := hok.links p r hm
             rw [hdecl p, h1] at hd; cases hd
@@ -1950,5 +1988,79 @@ theorem ctor_late_equiv {c : Cfg} {dflt : List Val} {kws : List (Nat × Rhs)} {w
         simpa [finish, allDeps] using this
       · rename_i hne _
         simp at hc; exact absurd hc.1 hne
+
+/-! ### the setter as a statement machine -/
+
+
+/-- the setter of the model *is* the statement machine run in the order of the code -/
+theorem setCore_is_code_order (c : Cfg) (t p : Nat) (d : PDecl) (old v : Val) (rl : Relink) (ec : Bool) (w : World) :
+    setCore c t p d old (some v) rl ec w =
+      setStaged c { t := t, p := p, d := d, old := old, v := v, rl := rl, editConst := ec } codeOrder w := by
+  unfold setCore setStaged codeOrder
+  simp only [runStages, runStage]
+  by_cases hv : d.valid v = true
+  · by_cases hr : d.readonly = true
+    · simp [hv, hr]
+    · by_cases hc : (d.constant && !ec) = true
+      · by_cases hi : identical v old = true
+        · simp [hv, hr, hc, hi]
+        · simp [hv, hr, hc, hi]
+      · simp [hv, hr, hc]
+  · simp [hv]
+
+theorem runStage_check {c : Cfg} {a : SetArgs} {st : Stage} (hst : st.isCheck = true) (w : World) (b : Bool) :
+    (∃ b', runStage c a st (w, b) = .ok (w, b')) ∨ (∃ e, runStage c a st (w, b) = .error (e, w)) := by
+  cases st with
+  | validate => simp only [runStage]; split <;> simp
+  | guard =>
+    simp only [runStage]
+    split
+    · simp
+    · split
+      · split <;> simp
+      · simp
+  | store => cases hst
+  | relink => cases hst
+
+theorem runStage_effect {c : Cfg} {a : SetArgs} {st : Stage} (hst : st.isCheck = false) (s : World × Bool) :
+    ∃ s', runStage c a st s = .ok s' := by
+  obtain ⟨w, b⟩ := s
+  cases st with
+  | validate => cases hst
+  | guard => cases hst
+  | store => exact ⟨_, rfl⟩
+  | relink => exact ⟨_, rfl⟩
+
+theorem runStages_effects_ok {c : Cfg} {a : SetArgs} : ∀ (post : List Stage) (s : World × Bool),
+    (∀ st ∈ post, st.isCheck = false) → ∃ s', runStages c a post s = .ok s' := by
+  intro post
+  induction post with
+  | nil => intro s _; exact ⟨s, rfl⟩
+  | cons st rest ih =>
+    intro s h
+    obtain ⟨s', hs'⟩ := runStage_effect (c := c) (a := a) (h st (List.mem_cons_self ..)) s
+    simp only [runStages, hs']
+    exact ih s' (fun x hx => h x (List.mem_cons_of_mem _ hx))
+
+/-- in any statement order that runs every check before the first effect, an exception finds the
+world untouched -/
+theorem runStages_checks_first {c : Cfg} {a : SetArgs} : ∀ (pre post : List Stage) (w : World) (b : Bool) (e : Err) (w' : World),
+    (∀ st ∈ pre, st.isCheck = true) → (∀ st ∈ post, st.isCheck = false) →
+    runStages c a (pre ++ post) (w, b) = .error (e, w') → w' = w := by
+  intro pre
+  induction pre with
+  | nil =>
+    intro post w b e w' _ hpost h
+    obtain ⟨s', hs'⟩ := runStages_effects_ok (c := c) (a := a) post (w, b) hpost
+    simp only [List.nil_append] at h
+    rw [hs'] at h; cases h
+  | cons st rest ih =>
+    intro post w b e w' hpre hpost h
+    simp only [List.cons_append, runStages] at h
+    rcases runStage_check (c := c) (a := a) (hpre st (List.mem_cons_self ..)) w b with ⟨b', hb⟩ | ⟨e0, he⟩
+    · rw [hb] at h
+      exact ih post w b' e w' (fun x hx => hpre x (List.mem_cons_of_mem _ hx)) hpost h
+    · rw [he] at h
+      simp at h; exact h.2.symm
 
 end ParamVerif.Refs
